@@ -14,7 +14,9 @@ thread_local! {
     static MAXREQ: Cell<usize> = const { Cell::new(0) };
     static SHARD: Cell<usize> = const { Cell::new(usize::MAX) };
     /// 0 = off; otherwise every fresh allocation (and the grown part of a reallocation) on this thread is filled with
-    /// this byte, so that memory handed out uninitialised has a content the harness chose
+    /// this byte, so that memory handed out uninitialised has a content the harness chose; freed blocks are filled
+    /// with it too before they go back, and a reallocation always moves, so that a pointer kept into a freed or
+    /// outgrown block reads that byte instead of the data that used to be there
     static POISON: Cell<u8> = const { Cell::new(0) };
 }
 
@@ -156,11 +158,26 @@ unsafe impl GlobalAlloc for Tracking {
     }
     unsafe fn dealloc(&self, ptr: *mut u8, layout: Layout) {
         unnote(layout.size());
+        poison(ptr, 0, layout.size());
         System.dealloc(ptr, layout)
     }
     unsafe fn realloc(&self, ptr: *mut u8, layout: Layout, new_size: usize) -> *mut u8 {
         unnote(layout.size());
         note(new_size);
+        let active = POISON.try_with(|p| p.get() != 0).unwrap_or(false);
+        if active {
+            // move, so that the old block can be given its marker content
+            let nl = Layout::from_size_align_unchecked(new_size, layout.align());
+            let p = System.alloc(nl);
+            if p.is_null() {
+                return p;
+            }
+            std::ptr::copy_nonoverlapping(ptr, p, layout.size().min(new_size));
+            poison(p, layout.size(), new_size);
+            poison(ptr, 0, layout.size());
+            System.dealloc(ptr, layout);
+            return p;
+        }
         let p = System.realloc(ptr, layout, new_size);
         poison(p, layout.size(), new_size);
         p
